@@ -26,6 +26,7 @@ type scanTables struct {
 	scanLoop   *ast.ForStmt
 	scanFD     *ast.FuncDecl
 	foundFD    *ast.FuncDecl // the per-type matching method used in the case arms
+	tableLoop  *ast.RangeStmt // data-driven scan: the loop over the table of token types
 	problems   []string
 }
 
@@ -160,6 +161,61 @@ func (c *Ctx) scanTables() *scanTables {
 		}
 		return true
 	})
+	if len(st.order) == 0 {
+		// data-driven form: for _, t := range <table of token types> { if v.found(t) { continue scanning } }
+		ast.Inspect(st.scanLoop.Body, func(x ast.Node) bool {
+			rs, ok := x.(*ast.RangeStmt)
+			if !ok || rs.Value == nil || len(st.order) > 0 {
+				return true
+			}
+			elem := identObj(info, rs.Value)
+			var found *ast.FuncDecl
+			ast.Inspect(rs.Body, func(y ast.Node) bool {
+				if call, ok := y.(*ast.CallExpr); ok && len(call.Args) == 1 && elem != nil && isObj(info, call.Args[0], elem) {
+					if cf := calleeOf(info, call); cf != nil {
+						if d := c.declOf(cf); d != nil {
+							found = d
+						}
+					}
+				}
+				return true
+			})
+			if found == nil {
+				return true
+			}
+			var lit *ast.CompositeLit
+			switch t := ast.Unparen(rs.X).(type) {
+			case *ast.CompositeLit:
+				lit = t
+			case *ast.Ident:
+				if v, ok := info.Uses[t].(*types.Var); ok {
+					for _, f := range c.Pkgs["cdcn"].Syntax {
+						ast.Inspect(f, func(z ast.Node) bool {
+							if vs, ok := z.(*ast.ValueSpec); ok {
+								for i, nm := range vs.Names {
+									if info.Defs[nm] == v && i < len(vs.Values) {
+										if l, ok := ast.Unparen(vs.Values[i]).(*ast.CompositeLit); ok {
+											lit = l
+										}
+									}
+								}
+							}
+							return true
+						})
+					}
+				}
+			}
+			if lit == nil {
+				return true
+			}
+			st.foundFD = found
+			st.tableLoop = rs
+			for _, el := range lit.Elts {
+				st.order = append(st.order, exprStr(el))
+			}
+			return true
+		})
+	}
 	return st
 }
 
